@@ -35,7 +35,10 @@
 (*                "env": the lock CLASS (existence lock / flock), hence the      *)
 (*                exclusion domain, is chosen from the updater's environment     *)
 (*                env[p]: updaters configured differently do not exclude each    *)
-(*                other although they use the same lock path.  Refuted.          *)
+(*                other although they use the same lock path.  The same holds    *)
+(*                for a lock PATH computed from anything that differs between    *)
+(*                separately started updaters (per-interpreter str-hash salt,    *)
+(*                working directory, spelling of the base path).  Refuted.       *)
 (*                "steal": key = position, but a waiter whose wait has lasted   *)
 (*                "too long" unlinks the lock file and takes the lock itself     *)
 (*                (finite timeout + takeover).  Time is not modelled: a holder   *)
